@@ -2849,12 +2849,19 @@ impl Lexer<'_> {
                         // Now advance the cursor past the percent
                         self.cursor.advance();
 
-                        // And update the last byte offset - this will ensure that the
-                        // following escaped char will be included in the next literal section
-                        last_lit_end_byte_offset = self.cur_byte_offset();
+                        let quoted_char_byte_offset = self.cur_byte_offset();
 
-                        // Finally, advance the cursor past the quoted char
+                        // Advance the cursor past the quoted char and store it right away.
+                        // The section before the percent may be empty, but the literal in the
+                        // buffer must not be - this is how we know that a payload is needed
                         self.cursor.advance();
+
+                        let (_, new_end) =
+                            self.add_string_literal_from_src(quoted_char_byte_offset, None);
+                        lit_end_idx = new_end;
+
+                        // And update the last byte offset
+                        last_lit_end_byte_offset = self.cur_byte_offset();
                         continue;
                     }
 
